@@ -6,7 +6,7 @@ import PsModel.Spec.C18
 ```
 C18 (fmt (FRAME…))      FRAME = (efc FUNC FILE) | (cf FUNC) | (ae CTXFILE CTXNAME LINE|none) | (o) | (real FILE FUNC LINE)
    → model=<entries of fmt> accept=<frame grammar accepts> spec=<triples of the activations (Python's own)>
-C18 (loops (CAUGHT LOGGER (OCC…))…)   OCC = (RES BOOL RES BOOL RES), RES = ok | (raise N)
+C18 (loops (CAUGHT|legacy|new LOGGER (OCC…))…)   OCC = (RES BOOL RES BOOL RES), RES = ok | (raise N)
    → model=<served runs subs log> spec=<the same from specRecs/specRuns>
 C18 (load (NAME RES)…)  → model=<contexts | script-logger records> spec=<…>
 ```
@@ -81,7 +81,11 @@ def occ? : Sexp → Option Occ
 
 def loop? : Sexp → Option (Bool × String × List Occ)
   | .list [c, .atom lg, .list os] => do
-      let caught ← c.bool?; let occs ← Sexp.mapM? occ? os
+      let caught ← (match c with
+        | .atom "legacy" => some (fnCaught .legacy)     -- a trigger function of that subsystem
+        | .atom "new" => some (fnCaught .new)
+        | _ => c.bool?)
+      let occs ← Sexp.mapM? occ? os
       pure (caught, lg, occs)
   | _ => none
 
